@@ -35,7 +35,17 @@ Fixpoint find_txn (id:txid) (t:list (txid * txn)) : option txn :=
    response while its send instant is still recorded (inst = Some t0: it has not been retransmitted). *)
 Definition est_step (s:est) (c:client) (o:op) (r:reply) (evs:list event) : est :=
   match o with
-  | Send now _ _ _ _ _ => match r with ROk _ => est_send s now | _ => s end
+  | Send now _ _ _ app room =>
+      match r with
+      | ROk _ => est_send s now
+      | RInternal =>
+          (* set_timeout refreshes the estimator (staleness, last request) BEFORE it finds that the schedule is empty (Rc = 0):
+             a send that got past the limit check, the mechanism and the encoder and then failed there has done est_send *)
+          if negb (limit (cfg c) <=? N.of_nat (length (T c))) && room
+             && (match prepare c true app with inl (Some _) => true | _ => false end)
+          then est_send s now else s
+      | _ => s
+      end
   | Recv now _ _ =>
       fold_left (fun st e =>
         match final_of e with
